@@ -49,10 +49,11 @@ PROPS = {
             T("TestBurstyHistory", (3, 8000), (5, 300000)),
             T("TestMetamorphic", (3, 5000), (3, 200000)),
             T("TestConcurrentCallers", (2, 3000), (2, 60000)),
+            T("TestConcurrentHammer", (4, 150), (8, 3000)),
             T("TestBlockingAcquire", (4, 400), (4, 8000)),
         ],
         fuzz=[dict(name="FuzzHistory", time="120s")],
-        rule="rapid-generated histories of permit requests on a virtual stopwatch (boundary-biased instants, permit counts up to 3x max, max waits aimed at the refusal threshold); non-trivial = the history contains a wait > 0 AND (a refusal followed by a grant, or an idle gap of >= 1 unit while permits were owed, or a request exactly on a slot/period boundary); metamorphic cases count when a refusal was deleted or a k-permit request was split; concurrent rounds count when grants and refusals raced; blocking cases when the predicted wait was non-zero or a refusal; distinct = hash of the abstracted op string (advance class, op, permits, granted/waited/refused)",
+        rule="rapid-generated histories of permit requests on a virtual stopwatch (boundary-biased instants, permit counts up to 3x max, max waits aimed at the refusal threshold); non-trivial = the history contains a wait > 0 AND (a refusal followed by a grant, or an idle gap of >= 1 unit while permits were owed, or a request exactly on a slot/period boundary); metamorphic cases count when a refusal was deleted or a k-permit request was split; concurrent rounds count when grants and refusals raced (TestConcurrentCallers: 2..7 goroutines per round, up to 5 rounds; TestConcurrentHammer: 3..8 persistent workers released by a spin barrier for 50..300 rounds per case, each round linearized against the model; all limiter constructors incl. Smooth(n, period) and the builder-less forms); blocking cases when the predicted wait was non-zero or a refusal; distinct = hash of the abstracted op string (advance class, op, permits, granted/waited/refused)",
         assumptions=[
             "virtual stopwatch injected through ratelimiter.VerifSetStopwatch (build tag verif)",
             "permit counts >= 1, max wait >= 0, interval/period >= 1ns; histories short enough that int64 nanoseconds do not overflow",
@@ -67,12 +68,12 @@ COMPOSE_ASSUMPTIONS = [
 COMPOSE_RULE = "rapid-generated scenarios (pool of policy instances, stack with repetition, history of executions over the 8 entry points with scripted outcomes incl. self-cancellation, a caller context that is already cancelled, and blocking beneath an always-fires timeout, one instance in three registering only a random subset of its listeners, one in five built through its package's convenience constructor (WithDefaults / With / WithResult / WithError / WithFunc / WithDelay / SmoothWithMaxRate / Bursty), one Get-style execution in six going through the package-level failsafe.Get* functions, interleaved with clock advances and standalone operations), compared with the sequential reference model after every step; distinct = hash of (kinds and instance indexes in stack order, action kinds, scripts); non-trivial = "
 
 PROPS.update({
-    "C10": dict(pkg="./props/c10_fallback", tests=[REGRESS(), T("TestFallback", (8, 6000), (16, 100000))],
-        rule=COMPOSE_RULE + "a fallback was applied AND (the failure it handled came from a library-generated error: ExceededError, ErrOpen, ErrFull, rate-limit or timeout error; or the fallback has a HandleResult/HandleIf condition). Profile: fallback outermost, full error universe, all policy kinds inside.",
+    "C10": dict(pkg="./props/c10_fallback", tests=[REGRESS(), T("TestFallback", (8, 6000), (16, 100000)), T("TestFallbackViewStable", (2, 300), (4, 6000))],
+        rule=COMPOSE_RULE + "a fallback was applied AND (the failure it handled came from a library-generated error: ExceededError, ErrOpen, ErrFull, rate-limit or timeout error; or the fallback has a HandleResult/HandleIf condition). Profile: fallback outermost, full error universe, all policy kinds inside. TestFallbackViewStable: the fallback function reads LastResult/LastError on entry and again after its execution was cancelled while it runs (enclosing Timeout, ExecutionResult.Cancel, caller context): both readings are the failure it handles; non-trivial when the cancellation arrived while the function was running.",
         assumptions=COMPOSE_ASSUMPTIONS),
     "C11": dict(pkg="./props/c11_cache", tests=[REGRESS(), T("TestCache", (8, 5000), (16, 80000)), T("TestCacheOverlapping", (4, 1500), (8, 20000))],
         rule=COMPOSE_RULE + "a cache hit that follows a store made by an earlier step of the same history, or a context key that conflicts with a configured key after something was stored, or an error outcome stored through a matching CacheIf. Profile: cache-heavy pools sharing one instrumented cache, stateful policies inside, histories up to 10 steps with direct cache writes/deletes. TestCacheOverlapping: 2..6 executions with generated keys overlap inside one cache policy (parked in the function, completed in a generated order); non-trivial when at least two different keys are involved.",
-        assumptions=COMPOSE_ASSUMPTIONS + ["an empty string key in the context is generated only when no cache policy has a configured key (the statement does not say whether an empty context key counts as supplied)"]),
+        assumptions=COMPOSE_ASSUMPTIONS + ["an empty string under cachepolicy.CacheKey in the context counts as a string key supplied through the context (it takes precedence over a configured key) and as no key (nothing is read or written)"]),
     "C16": dict(pkg="./props/c16_events", tests=[REGRESS(), T("TestEvents", (8, 6000), (16, 120000)), T("TestEventsConcurrent", (4, 1500), (8, 30000)), T("TestEventsWhenWaitsAreCancelled", (2, 600), (4, 8000)), T("TestBreakerEventPathConcurrent", (4, 300), (8, 6000)), T("TestHedgedRetryEvents", (4, 500), (8, 10000))],
         prefer_json_tests=["TestHedgedRetryEvents"], replay_reps=300,
         rule=COMPOSE_RULE + "at least 3 distinct listener kinds fired and at least one of {abort, exhaustion, rejection, cache hit, fallback, timeout, nested retries}. Every listener of every builder and of the executor is registered into one recorder. TestEventsConcurrent: 2..12 executions with different scripts share one executor and its listeners; each execution's events (attributed through the context) must equal the model's prediction for its own script. TestEventsWhenWaitsAreCancelled: an execution waiting an hour for a bulkhead permit, a limiter permit or a retry delay is cancelled; rejection / retry / exhaustion listeners must stay silent. TestHedgedRetryEvents: Hedge(Retry(fn)) with a hedge that only accepts successes, so 2..4 branches of one execution share the retry policy's executor; every invocation parks and the harness lets them return one at a time in a generated order or all at once; OnRetriesExceeded at most once (exactly once with ExceededError), invocations = 1 + OnHedge + OnRetry, OnRetry <= OnRetryScheduled, one completion event; non-trivial when at least two branches were parked together and a retry was decided or the retries were exceeded.",
